@@ -10,6 +10,9 @@ SHARED = {
     "Sched": ["C10"],
     "IndexWalk": ["C03", "C04", "C15"],
     "Finite": ["C01", "C02"],
+    "DDef": ["C01", "C07", "C19"],
+    "DDef2": ["C01"],
+    "W3jBounds": ["C05"],
     "FlatSteps": ["C01", "C08", "C15"],
 }
 
